@@ -926,6 +926,51 @@ def rule_P11b(ctx, rule: str = "P11") -> None:
         ctx.proved(rule, name, models.loc(fn), f"{n} distinguished comments: each literal parses and denotes the comment's text")
 
 
+def rule_P15(ctx, rule: str = "P15") -> None:
+    """every .proto file of the request is entered into the input files of its output package: in generate_code's loop over
+    request.proto_file each iteration appends the file (a package may be spread over several files - the types of a file that
+    is not recorded are never read and get no class)"""
+    parser = ctx.repo.mod(M_PARSER)
+    fn = parser.func("generate_code")
+    ctx.analysed("generate_code")
+    loops = [lp for lp in fn.body if isinstance(lp, ast.For) and "proto_file" in ast.unparse(lp.iter) and isinstance(lp.target, ast.Name)]
+    name = "generate_code:every-file-recorded"
+    if not loops:
+        ctx.inconclusive(rule, name, "loop over request.proto_file not found", parser.loc(fn))
+        return
+    lp = loops[0]
+    var = lp.target.id
+
+    def records(st: ast.stmt) -> bool:
+        for c in ast.walk(st):
+            if isinstance(c, ast.Call) and isinstance(c.func, ast.Attribute) and c.func.attr in ("append", "add") and isinstance(c.func.value, ast.Attribute) and c.func.value.attr == "input_files" \
+                    and len(c.args) == 1 and isinstance(c.args[0], ast.Name) and c.args[0].id == var:
+                return True
+            if isinstance(c, ast.AugAssign) and isinstance(c.target, ast.Attribute) and c.target.attr == "input_files" and var in {x.id for x in ast.walk(c.value) if isinstance(x, ast.Name)}:
+                return True
+        return False
+
+    def always(body) -> bool:
+        for st in body:
+            if isinstance(st, (ast.Expr, ast.AugAssign, ast.Assign)) and records(st):
+                return True
+            if isinstance(st, ast.If) and st.orelse and always(st.body) and always(st.orelse):
+                return True
+            if isinstance(st, (ast.With, ast.Try)) and always(st.body):
+                return True
+        return False
+
+    ctx.count(len(lp.body))
+    if always(lp.body):
+        ctx.proved(rule, name, parser.loc(lp), f"every iteration appends `{var}` to the input files of its package")
+    else:
+        somewhere = any(records(st) for st in lp.body) or "input_files" in ast.unparse(lp)
+        ctx.refuted(rule, name, "conditional" if somewhere else "absent", parser.loc(lp),
+                    f"an iteration of the loop over the request's files can finish without appending `{var}` to its package's input_files"
+                    + (" (the file is recorded only when the package is first created)" if somewhere else "") + ": the messages and enums of every further file of a package get no class",
+                    "package inventory split over item.proto and stock.proto in one plugin run")
+
+
 def rule_P11(ctx) -> None:
     """proto comments are user text: before it is placed between triple quotes, backslashes are doubled and quotes
     that could close the literal (a \"\"\" run, a quote at the very end) are neutralised"""
@@ -1058,7 +1103,7 @@ def _x1b(ctx) -> None:
 
 
 def run(ctx) -> None:
-    for name, fn in (("X3", _x3), ("X10", _x10), ("X1", _x1b), ("P14", rule_P14), ("P1", template.rule_P1), ("P2", rule_P2), ("P3", rule_P3), ("P4", rule_P4), ("P5", rule_P5), ("P6", rule_P6), ("P7", rule_P7), ("P8", rule_P8), ("Y2iii", template.rule_Y2iii), ("P9", rule_P9), ("P10", rule_P10), ("P11", rule_P11), ("P11b", rule_P11b), ("P12", rule_P12), ("P13", rule_P13)):
+    for name, fn in (("X3", _x3), ("X10", _x10), ("X1", _x1b), ("P14", rule_P14), ("P1", template.rule_P1), ("P2", rule_P2), ("P3", rule_P3), ("P4", rule_P4), ("P5", rule_P5), ("P6", rule_P6), ("P7", rule_P7), ("P8", rule_P8), ("Y2iii", template.rule_Y2iii), ("P9", rule_P9), ("P10", rule_P10), ("P11", rule_P11), ("P11b", rule_P11b), ("P15", rule_P15), ("P12", rule_P12), ("P13", rule_P13)):
         ctx.rules_run.append(name)
         try:
             fn(ctx)
